@@ -23,7 +23,11 @@ CONSTANTS
   MaxVids,      \* bound on version ids issued (versioned configurations)
   MaxDepth,     \* bound on history length (0 = none)
   WithEmpty,    \* include the empty body
-  Ghosts        \* TRUE: distinguish states by the set of deleted-and-absent keys
+  Ghosts,       \* TRUE: distinguish states by the set of deleted-and-absent keys
+  PartNums,     \* part numbers used by multipart operations
+  PartBodies,   \* body atoms of parts
+  MaxUploads,   \* bound on upload ids issued
+  MaxList       \* longest part list of a Complete request
 
 \* ghost: the (bucket,key)s that once held an object and hold none now.  It
 \* does not influence any action; it only refines the VIEW so that the
@@ -105,13 +109,43 @@ Ops(s) ==
                                     : b \in Buckets, k \in KeySet, v \in UNION {KnownVids(s, b2, k2) : b2 \in Buckets, k2 \in KeySet}} ELSE {})
 \cup (IF On("ListVersions") THEN {[op |-> "ListVersions", b |-> b, prefix |-> <<>>, delim |-> <<>>] : b \in Buckets} ELSE {})
 
+\* ---- multipart operations ----
+KnownUids(s) == s.uids \cup {"u0"}
+\* part lists: every arrangement (any order) of up to MaxList distinct part
+\* numbers, known or not (7 is never uploaded), each quoting the ETag of some
+\* body (the current upload of the part, a stale one, or one never uploaded)
+PartEntries == {[n |-> n, body |-> <<pb>>] : n \in PartNums \cup {7}, pb \in PartBodies}
+RECURSIVE ListsOfLen(_)
+ListsOfLen(n) == IF n = 0 THEN {<<>>}
+                 ELSE {Append(l, e) : l \in ListsOfLen(n - 1), e \in PartEntries}
+DistinctNs(l) == \A i, j \in 1..Len(l) : i # j => l[i].n # l[j].n
+PartLists == {l \in UNION {ListsOfLen(n) : n \in 1..MaxList} : DistinctNs(l)}
+
+MpOps(s) ==
+     (IF On("Initiate") /\ Cardinality(s.uids) < MaxUploads
+        THEN {[op |-> "Initiate", b |-> b, k |-> k, meta |-> MetaA, uid |-> NextUid(s)] : b \in Buckets, k \in KeySet} ELSE {})
+\cup (IF On("UploadPart")
+        THEN {[op |-> "UploadPart", b |-> b, k |-> k, uid |-> u, n |-> n, body |-> <<pb>>]
+                : b \in Buckets, k \in KeySet, u \in KnownUids(s), n \in PartNums, pb \in PartBodies} ELSE {})
+\cup (IF On("Complete")
+        THEN {[op |-> "Complete", b |-> b, k |-> k, uid |-> u, list |-> l, vid |-> NextVid(s)]
+                : b \in Buckets, k \in KeySet, u \in KnownUids(s), l \in PartLists} ELSE {})
+\cup (IF On("Abort")
+        THEN {[op |-> "Abort", b |-> b, k |-> k, uid |-> u] : b \in Buckets, k \in KeySet, u \in KnownUids(s)} ELSE {})
+\cup (IF On("ListParts")
+        THEN {[op |-> "ListParts", b |-> b, k |-> k, uid |-> u, marker |-> 0, max |-> 0]
+                : b \in Buckets, k \in KeySet, u \in KnownUids(s)} ELSE {})
+\cup (IF On("ListUploads")
+        THEN {[op |-> "ListUploads", b |-> b, prefix |-> <<>>, delim |-> d, max |-> 0]
+                : b \in Buckets \cap s.mpb, d \in {<<>>, <<47>>}} ELSE {})
+
 VidBound(s, op) ==
   (op.op \in {"PutObject", "PostObject", "CopyObject", "DeleteObject", "DeleteMulti"} /\ HasB(s, op.b) /\ Enabled(s, op.b))
      => Cardinality(s.vids) < MaxVids
 
 Next ==
   /\ MaxDepth = 0 \/ Len(hist) < MaxDepth
-  /\ \E op \in Ops(st) :
+  /\ \E op \in Ops(st) \cup MpOps(st) :
        /\ VidBound(st, op)
        /\ \E res \in Step(st, Cfg, op) :
             /\ st' = res.st
@@ -147,6 +181,13 @@ AuditOps(s) ==
   IN (IF Cfg.single = "" THEN <<[op |-> "ListBuckets"]>> ELSE <<>>)
      \o Flatten([i \in 1..Len(present) |-> PerBucket(present[i])])
      \o (IF Cfg.auto THEN <<>> ELSE [i \in 1..Len(absent) |-> [op |-> "HeadBucket", b |-> absent[i]]])
+     \o (LET us == SetToSeq(DOMAIN s.up)
+             mb == SetToSeq({b \in s.mpb : HasB(s, b)}) IN
+         [i \in 1..Len(us) |-> [op |-> "ListParts", b |-> s.up[us[i]].b, k |-> s.up[us[i]].k, uid |-> us[i],
+                                 marker |-> 0, max |-> 0]]
+         \o Flatten([i \in 1..Len(mb) |->
+               <<[op |-> "ListUploads", b |-> mb[i], prefix |-> <<>>, delim |-> <<>>, max |-> 0],
+                 [op |-> "ListUploads", b |-> mb[i], prefix |-> <<>>, delim |-> <<47>>, max |-> 0]>>]))
 Audit(s) == WithReply(s, AuditOps(s))
 
 Emit == PrintT(ToJson([h |-> hist',
